@@ -16,6 +16,7 @@ use crate::types::{Sched, Stall};
 pub const SITE_OP: u8 = 0;
 pub const SITE_CALLBACK: u8 = 1;
 pub const SITE_END: u8 = 2;
+pub const SITE_ELEM: u8 = 3;
 
 pub struct Baton {
     m: Mutex<St>,
@@ -42,6 +43,7 @@ struct St {
     callback_switches: usize,
     /// decisions at which the stalled thread was actually withheld from the policy
     stall_hits: usize,
+    elem_switches: usize,
 }
 
 enum Policy {
@@ -85,6 +87,7 @@ pub struct Summary {
     pub switches: usize,
     pub callback_switches: usize,
     pub stall_hits: usize,
+    pub elem_switches: usize,
 }
 
 impl Baton {
@@ -104,6 +107,7 @@ impl Baton {
             switches: 0,
             callback_switches: 0,
             stall_hits: 0,
+            elem_switches: 0,
         };
         // the very first decision (who starts) is part of the trace
         if n > 0 {
@@ -178,6 +182,9 @@ impl Baton {
         if site == SITE_CALLBACK {
             st.callback_switches += 1;
         }
+        if site == SITE_ELEM {
+            st.elem_switches += 1;
+        }
         st.current = next;
         self.cvs[next].notify_one();
         while st.current != me && !st.free_run {
@@ -219,6 +226,7 @@ impl Baton {
             switches: st.switches,
             callback_switches: st.callback_switches,
             stall_hits: st.stall_hits,
+            elem_switches: st.elem_switches,
         }
     }
 }
